@@ -18,6 +18,7 @@
 #include "mythmc.h"
 #include "myth/myth.h"
 #define MYTH_VERIF 1
+#define MYTH_VERIF_NO_POINTS 1   /* the runtime's own atomics must not be turned into scheduling points */
 #include "myth_verif.h"
 
 extern unsigned long myth_verif_idle_sig(int rank, int * local_nonempty, int * others_nonempty);
@@ -392,7 +393,7 @@ void mythv_alloc(int kind, void * p, size_t sz, int rank) {
     finish_verdict(MV_VIOLATION, b);
   }
   if (!e) {
-    if (lg_n >= LG_MAX) finish_verdict(MV_ENGINE_ERROR, "ledger full");
+    if (lg_n >= LG_MAX) finish_verdict(MV_VIOLATION, "runaway thread creation: a bounded program made the library hand out more than 512 distinct thread records / stacks (unbounded recursion)");
     e = &LG[lg_n++]; e->p = p; e->kind = kind; lg_fresh[kind]++;
     if (kind == mythv_k_desc) mv_sh->fresh_desc++; else mv_sh->fresh_stack++;
   } else {
